@@ -250,6 +250,23 @@ def decU8 : Dec
 def encVoid (_ : Nat) : Bytes := []
 def decVoid : Dec := fun _ => some (0, 0)
 
+/-! ### fixed-width little-endian numbers of any width (serix `uint8`/`int8`/`bool` = 1 byte … `uint64` = 8 bytes)
+
+An element of a `Set[uint8]` takes one byte and its `types.Empty` value none at all: an entry of an encoded set may be
+a single byte. -/
+
+def encLE : Nat → Nat → Bytes
+  | 0, _ => []
+  | w + 1, n => UInt8.ofNat (n % 256) :: encLE w (n / 256)
+
+def decLE : Nat → Dec
+  | 0, _ => some (0, 0)
+  | _ + 1, [] => none
+  | w + 1, a :: r =>
+    match decLE w r with
+    | some (v, c) => some (a.toNat + 256 * v, c + 1)
+    | none => none
+
 /-! ### table codecs (value types of the correspondence run that are not numbers)
 
 The harness uses maps whose values are pointers to structs, slices and Go maps; it names ten values of
